@@ -66,6 +66,7 @@ func checkC16(c *Ctx) {
 	c.rule("C16.R4", "outputParameters[k] is evaluated only under return signatures that the gate produces for NumOut > k", 5)
 	c.rule("C16.R5", "indices into the argument and converter slices are entailed by the length guards / filled by the identical counted loop; converters test the alternative before dereferencing it", 12)
 	c.rule("C16.R6", "the bridging closure is returned only on paths where the output gate and the input-converter construction both succeeded", 2)
+	c.rule("C16.R8", "registration reaches the table: every public function-registration call that returns without error has stored the (converted) function once in the dispatch table under the given name; nothing is stored when it fails", 2)
 	c.rule("C16.R7", "reflect accessors with kind preconditions are entailed by the matching Can*/Kind test, or by a return signature the gate grants only to such kinds", 4)
 	p := w.Pkg("")
 	info := p.TypesInfo
@@ -95,6 +96,7 @@ func checkC16(c *Ctx) {
 		c.fn(ctor)
 		c16Ctor(c, ctor)
 	}
+	checkRegistration(c, "C16.R8", "function", 2)
 	c16Converters(c)
 	c16KindTables(c, ctors)
 	c16Accessors(c, ctors)
